@@ -12,7 +12,7 @@ import PdfVerif.Lemmas.XrefBytes
 
 namespace PdfVerif.Props.C02
 
-open PdfVerif PdfVerif.Xref
+open PdfVerif PdfVerif.Xref PdfVerif.Gen.Xref
 
 /-! ## Newest definition wins -/
 
@@ -83,7 +83,7 @@ range-by-range reading of `/Index` assigns to `n`. -/
 theorem C02_xrefstm_entry (ranges : List (Nat × Nat)) (w1 w2 w3 : Nat) (rows : List Row)
     (hf : ∀ r ∈ rows, FitsRow w1 w2 w3 r) (hlen : sumCounts ranges ≤ rows.length) (n : Nat) :
     (XStream.mk ranges w1 w2 w3 (encodeRows w1 w2 w3 rows)).getPos n =
-      (rowSpec ranges rows n).bind entryOfRow := by
+      (rowSpec ranges rows n).bind rowEntry := by
   have hspec := findIndex_rowSpec ranges rows n 0
   simp only [List.drop_zero] at hspec
   rw [← hspec]
@@ -114,10 +114,52 @@ theorem C02_objids_pinned_cex :
     objidsPinned x x.ranges = [6] ∧ objidsSpec x.ranges rows = [5, 6] ∧ x.getObjids = [5, 6] := by
   decide
 
-example : FitsRow 0 2 0 (1, 515, 0) := ⟨Or.inl ⟨rfl, rfl⟩, Or.inr ⟨by decide, by decide⟩, Or.inl ⟨rfl, rfl⟩⟩
+example : FitsRow 0 2 0 (1, 515, 0) := ⟨Or.inl ⟨rfl, by decide⟩, Or.inr ⟨by decide, by decide⟩, Or.inl ⟨rfl, by decide⟩⟩
 
 example : (XStream.mk [(3, 1), (7, 2)] 0 2 0 (encodeRows 0 2 0 [(1, 515, 0), (1, 9, 0), (1, 300, 0)])).getPos 8
     = some ⟨none, 300, 0⟩ := by decide
+
+/-! ## The regenerated fragments mean what ISO 32000-1 says
+
+`Gen/Xref.lean` is rewritten from the Python source on every run; these theorems fail to check
+when one of the translated fragments changes its meaning. -/
+
+/-- The `if f1 == 1 … elif f1 == 2 …` chain of `get_pos` is Table 18 of ISO 32000-1. -/
+theorem C02_row_types (r : Nat × Nat × Nat) : rowEntry r = specRowEntry r := by
+  obtain ⟨t, a, b⟩ := r
+  match t with
+  | 0 => rfl
+  | 1 => rfl
+  | 2 => rfl
+  | n + 3 => simp [rowEntry, entryOfRow, specRowEntry]
+
+/-- `get_objids` counts exactly the row types that `get_pos` resolves. -/
+theorem C02_inuse_types (t a b : Nat) : inUseType t = (specRowEntry (t, a, b)).isSome := by
+  match t with
+  | 0 => rfl
+  | 1 => rfl
+  | 2 => rfl
+  | n + 3 => simp [inUseType, specRowEntry]
+
+/-- Member `index` of an object stream with `N` members stands after the `N` pairs of integers. -/
+theorem C02_objstm_index (n index : Nat) : objstmIndex n index = 2 * n + index := by
+  simp [objstmIndex]; omega
+
+/-- Field defaults (7.5.8.2: a zero-width type field means type 1; other fields default to 0), the
+`/Index` default `[0 Size]`, and both readers of the type field agree. -/
+theorem C02_defaults (size : Nat) :
+    typeDefault = 1 ∧ field2Default = 0 ∧ field3Default = 0 ∧ objidsTypeDefault = typeDefault ∧
+    defaultIndex size = [0, size] := by
+  refine ⟨rfl, rfl, rfl, rfl, rfl⟩
+
+/-- Keywords and field shapes of the classic table, and the chaining order (7.5.8.4: the
+table of a hybrid file is consulted first, then its `XRefStm`, then `Prev`). -/
+theorem C02_literals :
+    kwTrailer = "trailer".toList.map (fun c => c.toNat.toUInt8) ∧
+    kwStartxref = "startxref".toList.map (fun c => c.toNat.toUInt8) ∧
+    inUseMarker = [110] ∧ fieldSep = 32 ∧ headerFields = 2 ∧ entryFields = 3 ∧
+    chainOrder = ["XRefStm", "Prev"] := by
+  decide
 
 /-! ## Locating `startxref`: independence of the read-buffer size -/
 
